@@ -203,10 +203,12 @@ func sentinelForms(v *Val, inst int) [][]byte {
 	switch v.K {
 	case KString, KBytes, KNamedStr, KErr, KStringer, KPStringer, KGoStringer, KFormatter, KErrFormatter, KErrStringer, KPanicStringer, KPanicError:
 		s := unsafeStr(v.ID, inst)
-		for _, part := range strings.FieldsFunc(s, func(c rune) bool { return c == '\n' || c == ' ' || c == '‹' || c == '›' }) {
-			add(part)
-			add(fmt.Sprintf("%x", part))
-			add(fmt.Sprintf("%X", part))
+		// only the first fragment carries the per-leaf id stamp (later fragments repeat across leaves)
+		parts := strings.FieldsFunc(s, func(c rune) bool { return c == '\n' || c == ' ' || c == '‹' || c == '›' })
+		if len(parts) > 0 && len(parts[0]) >= 5 {
+			add(parts[0])
+			add(fmt.Sprintf("%x", parts[0]))
+			add(fmt.Sprintf("%X", parts[0]))
 		}
 	case KInt, KNamedInt:
 		n := unsafeInt(v.ID, inst)
